@@ -15,6 +15,7 @@ class TypedefGen:
         self.refs = [set()]               # per frame: keys looked up through it (a later declaration of such a key would capture the earlier use: late-declaration finding)
         self.tdecls = []                  # typedef records: {id, name, line, ty (type tree), frame_depth}
         self.tags = []                    # tag records: {id, kw, name, line}
+        self.tag_alias = {}               # (kw, name, line of the completing definition) -> line of the forward declaration
         self.expect = {}                  # (kind, name, line) -> expected printed type
         self.model = []                   # model records
         self.nv = self.nf = self.ng = 0
@@ -196,8 +197,10 @@ class TypedefGen:
             rec = self.frames[-1]["t:" + name]
             if not rec["complete"] and r.random() < 0.7:
                 # completion of a forward-declared tag: the same entity
-                self.emit(indent + "%s %s { int m%d; };" % (rec["kw"], name, len(self.lines)))
+                cl = self.emit(indent + "%s %s { int m%d; };" % (rec["kw"], name, len(self.lines)))
                 rec["complete"] = True
+                # the forward declaration and its completion declare ONE entity: a reference may be reported at either line
+                self.tag_alias[(rec["kw"], name, cl)] = rec["line"]
             return
         if ("t:" + name) in self.refs[-1]:
             return
